@@ -987,3 +987,60 @@ def selfcheck_geom(t, reps=10, seed=0):
         if not np.allclose([e.v(env) for e in t["sph"]], np.ravel(G.to_spherical(env["x"], env["y"], env["z"])), rtol=1e-13):
             return ["to_spherical"]
     return []
+
+
+# ------------------------------------------------------------------ utils.strain_increment (C18)
+class _LinalgShim:
+    def __init__(self):
+        self.passed = []
+
+    def eigvalsh(self, a, *args, **kw):
+        self.passed.append(np.array(a, dtype=object))
+        return sym_vector("w", 3)
+
+
+def trace_strain_increment():
+    """utils.strain_increment with `np.linalg.eigvalsh` (external) replaced by a recording shim returning symbolic eigenvalues; the
+    `.max()` of the absolute values forks on its comparisons"""
+    from pydrex import utils as U
+
+    real_np = U.np
+    sh = NpShim(real_np)
+    lin = _LinalgShim()
+    sh.linalg = lin
+    U.np = sh
+    try:
+        L, dt = sym_matrix("L"), sym_scalar("dt")
+        tree = explore(lambda: U.strain_increment(dt, L))
+    finally:
+        U.np = real_np
+    return {"tree": tree, "passed": lin.passed[0]}
+
+
+def emit_strain_increment(t, path=None):
+    M = t["passed"]
+    mat = "(fun i j => match i, j with " + " ".join(f"| {i}, {j} => {Expr.of(M[i, j]).s}" for i in range(3) for j in range(3)) + ")"
+    lines = ["-- GENERATED on every run by harness/trace/tracer.py from /repo/src/pydrex/utils.py -- do not edit",
+             "import ModelR.Flow", "noncomputable section", "namespace ModelR", "",
+             f"def traced_strainIncrement_matrix (L : Mat3) : Mat3 :=\n  {mat}\n",
+             f"def traced_strainIncrement (dt : ℝ) (w : Vec3) : ℝ :=\n  {tree_lean(t['tree'], lambda v: v)}\n", "end ModelR", ""]
+    text = "\n".join(lines)
+    path = path or (GEN / "TracedStrainIncrement.lean")
+    if not path.exists() or path.read_text() != text:
+        path.write_text(text)
+    return text
+
+
+def selfcheck_strain_increment(t, reps=20, seed=0):
+    from pydrex import utils as U
+
+    rng = np.random.default_rng(seed)
+    for _ in range(reps):
+        L, dt = rng.normal(size=(3, 3)), float(rng.normal())
+        M = np.array([[Expr.of(t["passed"][i, j]).v({"L": L}) for j in range(3)] for i in range(3)])
+        if not np.allclose(M, (L + L.T) / 2, rtol=1e-14):
+            return ["strain_increment:matrix"]
+        w = np.linalg.eigvalsh((L + L.T) / 2)
+        if not np.isclose(tree_eval(t["tree"], lambda v: v, {"dt": dt, "w": w}), U.strain_increment(dt, L), rtol=1e-13):
+            return ["strain_increment"]
+    return []
